@@ -246,6 +246,7 @@ impl<'a> Renderer<'a> {
 
     fn const_text(&mut self, c: &Const) -> String {
         match c {
+            Const::Canonical(s) => s.to_string(),
             Const::Int(n) => n.to_string(),
             Const::Half(n) => format!("{}.5", n),
             Const::True => self.st.of(&["true", "right", "yes", "ok"]).to_string(),
@@ -377,6 +378,12 @@ impl<'a> Renderer<'a> {
                 let to = self.st.mid("to");
                 let d = self.varref(r);
                 self.line(&format!("{} {} {}", l, to, d), true)
+            }
+            Op::ListenIt(_) => {
+                let l = self.st.kw("listen");
+                let to = self.st.mid("to");
+                let p = self.st.of(&["it", "he", "she", "him", "her", "they", "them", "ze", "xe"]);
+                self.line(&format!("{} {} {}", l, to, p), true)
             }
             Op::AssignLit(r, s) => self.assign_lit(r, s),
             Op::AssignInt(v, n) => self.assign_int(*v, *n),
